@@ -132,7 +132,11 @@ def build(tr, real_locks):
         def __init__(self):
             self.out = []
 
+        fail = None
+
         def sendData(self, d):
+            if self.fail is not None:
+                raise self.fail
             tr.ev("write", len(d))
             self.out.append(bytes(d))
 
@@ -414,8 +418,68 @@ def replay_schedule(ctx, kinds, n_ops):
             ("no interleaving corrupts the stream (header/payload adjacency, nonce order == wire order, no nonce reuse)", ok and frames == total and not errs and not dead[0] or (dead[0] and ok))]
 
 
+# ---- concurrent senders after a send that was refused -------------------------------------------------------------------------------
+FAILS = ("stanza-with-unencodable-value", "frame-too-large", "socket-write-error")
+
+
+def _failed_send(kind, insts, disp):
+    """one send that fails below the sender; returns the exception (None if it did not fail)"""
+    from yowsup.layers.protocol_presence.protocolentities import PresenceProtocolEntity
+    try:
+        if kind == "stanza-with-unencodable-value":
+            insts[-1].send(PresenceProtocolEntity(_type=12345))
+        elif kind == "frame-too-large":
+            insts[3].toLower(bytes(1 << 24))
+        elif kind == "socket-write-error":
+            disp.fail = OSError(32, "Broken pipe")
+            try:
+                do_send("app", insts, None, 99)
+            finally:
+                disp.fail = None
+    except Exception as e:
+        return e
+    return None
+
+
+def h_after_failure(ctx, kinds):
+    """a send is refused (the caller gets the error), then the senders run concurrently: every stanza must still get out"""
+    fail = ctx.choice("failed_send", list(FAILS))
+    if H.sym(ctx):
+        tr = Tracer()
+        st, insts, disp, iq, key = build(tr, False)
+        err = _failed_send(fail, insts, disp)
+        held = sorted(l.name for l in tr.locks if l.held)
+        return [("the refused send reports its error", err is not None),
+                ("no lock of the send path stays held after the refused send, so concurrent senders are not blocked for ever (held: %s)" % held, not held)]
+    tr = Tracer()
+    st, insts, disp, iq, key = build(tr, True)
+    err = _failed_send(fail, insts, disp)
+    n0 = len(disp.out)
+    done = []
+
+    def run(kind, variant):
+        do_send(kind, insts, iq, variant)
+        done.append(kind)
+    ths = [threading.Thread(target=run, args=(k, 20 + i)) for i, k in enumerate(kinds)]
+    for t in ths:
+        t.daemon = True
+        t.start()
+    for t in ths:
+        t.join(10)
+    stream = b"".join(disp.out[n0:])
+    frames, i = 0, 0
+    while i + 3 <= len(stream):
+        n = int.from_bytes(stream[i:i + 3], "big")
+        i += 3 + n
+        frames += 1
+    return [("the refused send reports its error", err is not None),
+            ("no lock of the send path stays held after the refused send, so concurrent senders are not blocked for ever (held: %d of %d senders finished, %d frames on the wire)"
+             % (len(done), len(kinds), frames), len(done) == len(kinds) and frames == len(kinds))]
+
+
 def cases(tier):
-    cs = [dict(name="threads[app+keepalive,2 sends]", fn=h_schedules, args=(("app", "keepalive"), 2), timeout_s=900, weight=10),
+    cs = [dict(name="after-refused-send[app+keepalive]", fn=h_after_failure, args=(("app", "keepalive"),)),
+          dict(name="threads[app+keepalive,2 sends]", fn=h_schedules, args=(("app", "keepalive"), 2), timeout_s=900, weight=10),
           dict(name="threads[app+app2,2 sends]", fn=h_schedules, args=(("app", "app2"), 2), timeout_s=900, weight=10),
           dict(name="threads[app+keepalive+app2,1 send]", fn=h_schedules, args=(("app", "keepalive", "app2"), 1), timeout_s=900, weight=10)]
     if tier != "quick":
